@@ -45,6 +45,25 @@ def s5_whole_batch(ctx):
                               'READ!: `%s` sorts what was drained for ONE portfolio (%s) inside the loop over the portfolios and hands it on portfolio by portfolio: with two '
                               'portfolios a buy of the first is executed before a sell of the second' % (_ast.unparse(c)[:70], ', '.join(sorted(lv))), key='C04.S5|per-portfolio')
     ctx.holds('C04.S5', 'no ordering step of the update covers one portfolio only (%d sort calls examined)' % n, None)
+    # itertools.groupby groups CONSECUTIVE equal keys: fed the orders as they were drained (not sorted by that key first) a sell queued after a buy is a second
+    # "sells" group after the buys - executed after them, or overwriting the first group when the groups are collected into a dict
+    for q in sorted(private_closure(ctx.M, {'SimulatedBroker.update'})):
+        g = ctx.M.funcs.get(q)
+        if g is None:
+            continue
+        for c in _ast.walk(g.node):
+            if isinstance(c, _ast.Call) and _ast.unparse(c.func).split('.')[-1] == 'groupby' and c.args and ctx.M.ext_name(g.mod, c.func) in ('itertools.groupby',):
+                src = c.args[0]
+                if isinstance(src, _ast.Name):
+                    defs = [s_.value for s_ in _ast.walk(g.node) if isinstance(s_, _ast.Assign) and any(isinstance(t_, _ast.Name) and t_.id == src.id for t_ in s_.targets)]
+                    src = defs[0] if len(defs) == 1 else src
+                is_sorted = isinstance(src, _ast.Call) and isinstance(src.func, _ast.Name) and src.func.id == 'sorted'
+                sorted_inplace = isinstance(c.args[0], _ast.Name) and any(isinstance(s_, _ast.Call) and isinstance(s_.func, _ast.Attribute) and s_.func.attr == 'sort'
+                                                                         and isinstance(s_.func.value, _ast.Name) and s_.func.value.id == c.args[0].id for s_ in _ast.walk(g.node))
+                if not is_sorted and not sorted_inplace:
+                    ctx.violation('C04.S5', 'sells are executed before buys across the whole batch of an update', g.site(c),
+                                  'READ!: `%s` groups consecutive orders only and its input is not sorted by that key first: orders of one side that were queued on either side of an '
+                                  'order of the other side end up in separate groups' % _ast.unparse(c)[:80], key='C04.S5|groupby-unsorted')
 
 
 def check(ctx):
